@@ -206,7 +206,8 @@ def run_check(prop, tier, seed, t0, a):
         if dom:
             domain_evals += dom['evaluated']
             domain_info.append(dict(function=key, evaluated=dom['evaluated'], violating=dom['violating'],
-                                    wall_s=dom['wall_s']))
+                                    wall_s=dom['wall_s'], clause_evaluations=dom.get('clause_evaluations'),
+                                    clauses_not_executable=dom.get('clauses_not_executable', [])))
             if dom['violating']:
                 for fv in dom['first'][:1]:
                     ident = f'{key.split(":")[1]}::{fv["violations"][0][0]}'
